@@ -152,6 +152,26 @@ theorem C05_slot_books (base : Nat) (h : History) (i : Nat) (c : Cfg) (p : Pool)
     ∃ v, r.mapSem.value = .fin v ∧ v + heldM p.tasks m + grantsL r.mapSem.waiters + r.pend ≤ r.nc :=
   (mapAll base h i c p hc hp).le m r hr
 
+/-- **element-wise, in order, lazy — for every history.** In every pool of every reachable world, for every
+map-family request: what has been pulled plus what is left is the whole iterable; every pulled element is a task of
+the call, was skipped (its call raised), or is the **single** element in hand — the consumer never runs more than one
+element ahead; and whether an element is in hand is determined by where the consumer is suspended (waiting for its own
+concurrency slot or for pool room: one; not yet started: none) -/
+theorem C05_lazy_all (base : Nat) (h : History) (i : Nat) (c : Cfg) (p : Pool)
+    (hc : ((World.init base).run h).cfgs[i]? = some c) (hp : ((World.init base).run h).pools[i]? = some p)
+    (m : Nat) (r : Req) (hr : p.reqs[m]? = some r) (hk : r.kind = .map) :
+    r.pulled + r.items.length = r.n0 ∧
+    tasksOf p.tasks m + r.skipped ≤ r.pulled ∧ r.pulled ≤ tasksOf p.tasks m + r.skipped + 1 ∧
+    ((r.frame = .waitRoom ∨ r.frame = .waitMapSem) → r.pulled = tasksOf p.tasks m + r.skipped + 1) ∧
+    (r.frame = .notStarted → r.pulled = tasksOf p.tasks m + r.skipped) := by
+  have ha := accAll base h i c p hc hp
+  rw [ha.tk m r hr]
+  exact (ha.rq m r hr).2 hk
+
+/-- the length of the iterable is what the call was given -/
+theorem C05_n0_is_length (stars : Nat) (g : String) (sp : SpawnSpec) (items : List Item) (nc : Nat) :
+    (newReq .map stars g sp 0 items nc).n0 = items.length := by simp [newReq]
+
 /-- the tasks of call `m` that have not handed back their pool slot — in particular every one whose worker has begun
 and not finished, and every one still inside its cancel callback -/
 def Pool.mapActive (p : Pool) (m : Nat) : Nat := p.tasks.countP (fun tk => tk.isMap && tk.req == m && !tk.released)
@@ -200,6 +220,13 @@ def C05_demo : History :=
    .run 0 [], .run 0 [], .run 0 []]
 
 example : (((World.init 0).run C05_demo).pools.map fun p => (p.mapLive 0, p.mapActive 0, p.reqs.map (·.nc))) = [(2, 2, [2])] := by
+  decide +kernel
+/-- … and the consumer is suspended on its own semaphore with the third element in hand, the fourth untouched -/
+example : (((World.init 0).run C05_demo).pools.map fun p =>
+    (tasksOf p.tasks 0, p.reqs.map fun r => (r.pulled, r.items.length, r.n0))) = [(2, [(3, 1, 4)])] := by
+  decide +kernel
+example : (((World.init 0).run C05_demo).pools.map fun p => p.reqs.map fun r => (r.skipped, r.frame)) =
+    [[(0, MFrame.waitMapSem)]] := by
   decide +kernel
 
 /-! Non-vacuity: `map` over 4 elements with `num_concurrent = 2` on an unbounded pool: two tasks, the third
